@@ -306,6 +306,13 @@ class Gen:
         for st in (getattr(prog, "segments", None) or []):
             if getattr(st, "pc_def", None) is not None:
                 body.append(Stmt("const", root, d=st.pc_def, expr=("num", st.pc, None)))
+        if k.get("p_setpc_back", 0.0) and rng.random() < 0.5:
+            # the same shape as the last thing of the program (of the segment that is current then): nothing is written behind
+            # the item that reaches below and above what the segment holds so far
+            kb = rng.randrange(2, 7)
+            body.append(Stmt("data", root, size=".byte", exprs=[("num", rng.randrange(256), None) for _ in range(kb)]))
+            body.append(Stmt("setpc", root, delta=-rng.randrange(1, kb + 1)))
+            body.append(Stmt("text", root, enc=None, text="".join(rng.choice("abcdefgh01234") for _ in range(rng.randrange(8, 13)))))
         # unit tests: a `.test` block is not assembled by a build, so it is inert for every oracle that judges bytes; its
         # statements (.assert with or without a message, .trace with or without arguments) are there for parser and formatter
         for ti in range(rng.randrange(1, 3) if rng.random() < k.get("p_test", 0.0) else 0):
